@@ -172,7 +172,6 @@ func histProfile(name string, decide []string, quick, thorough int, o histOpts, 
 
 func init() {
 	register(histProfile("C01", []string{"C01"}, 1500, 60000, histOpts{maxNodes: 6, pCanary: 0.4, fancy: []float64{0.3, 0.7}, faults: true}, "C01.create", "C01.dup", "C01.ineligible"))
-	register(histProfile("C04", []string{"C04"}, 1500, 60000, histOpts{maxNodes: 6, pCanary: 1, fancy: []float64{0, 0.3}, faults: true, pctReplicas: true}, "C04.canary-sync", "C04.active-with-canary", "C04.canary-status"))
 	register(histProfile("C05", []string{"C05"}, 1500, 60000, histOpts{maxNodes: 4, pCanary: 0.85, fancy: []float64{0}, faults: true}, "C05.switch"))
 	register(histProfile("C09", []string{"C09"}, 1500, 60000, histOpts{maxNodes: 8, pCanary: 0.2, fancy: []float64{0, 0.3}, faults: true}, "C09.creates", "C09.spacing", "C09.update-del"))
 	register(histProfile("C12", []string{"C12"}, 1200, 50000, histOpts{maxNodes: 4, pCanary: 0.4, fancy: []float64{0, 0.3}, faults: true, twoEDS: true}, "C12.foreign-listed", "C12.write"))
@@ -682,4 +681,112 @@ func init() {
 	register(&Profile{Name: "C08", Decide: []string{"C08"}, Quick: 1500, Thorough: 80000, Gen: genC08, Body: bodyC08,
 		NonVacuous: []string{"C08.paused-or-frozen-sync", "C08.paused-canary-sync", "C08.unpause", "C08.hold-ru-paused", "C08.hold-frozen"}, Chunk: 50,
 		Rule: "Rollout states reached by seeded history with every combination and toggling order of the rolling-update-paused, rollout-frozen, canary-paused and canary-unpaused annotations (user edits and kubectl-eds commands); per-sync monitors judge what a sync may create or delete while they are set; then one of: the rolling update is held paused (empty eligible nodes must still get a pod), held frozen, or a paused canary loses some of its pods and is unpaused (it must resume); finally all holds are lifted and the rollout must complete within the convergence bound. " + histRule})
+}
+
+// ---------------------------------------------------------------------------------------
+// C04: confinement monitors ride on the history; the body adds M4 (the rest of the fleet keeps
+// being served while a canary is held) and M5 (canary label during and after the canary).
+
+const canaryLabel = edsv1.ExtendedDaemonSetReplicaSetCanaryLabelKey
+
+func genC04(r *rand.Rand, tier string, idx int) *World {
+	o := histOpts{maxNodes: 6, pCanary: 1, fancy: []float64{0, 0.3}, faults: idx%2 == 1, pctReplicas: true, c02: true}
+	if tier == "thorough" {
+		o.maxNodes = 12
+	}
+	w := genHistory(r, tier, o)
+	w.Extra["c02prop"] = "C04"
+	w.Extra["c04end"] = pick(r, "hold", "hold", "promote")
+	w.Cfg.EndCanary = "validate"
+	return w
+}
+
+func bodyC04(s *Sim) {
+	s.Setup()
+	s.Chaos()
+	s.Drain()
+	def := s.W.EDS[0]
+	r := subRng(s.Seed, "c04hold")
+	s.W.Cfg.KubeletFaults, s.W.Cfg.NodeChurn = false, false
+	e := s.Store.GetEDS(def.NS, def.Name)
+	if s.W.Extra["c04end"] == "hold" && e != nil && e.Spec.Strategy.Canary != nil && e.Status.Canary != nil {
+		cr := s.Store.GetERS(def.NS, e.Status.Canary.ReplicaSet)
+		if cr != nil && !ersCondTrue(&cr.Status, edsv1.ConditionTypeCanaryFailed) {
+			// hold the canary, lift rolling-update holds, let a node join
+			s.userAnnotate(def.NS, def.Name, edsv1.ExtendedDaemonSetCanaryPausedAnnotationKey, "true")
+			s.userAnnotate(def.NS, def.Name, edsv1.ExtendedDaemonSetCanaryUnpausedAnnotationKey, "-")
+			s.userAnnotate(def.NS, def.Name, edsv1.ExtendedDaemonSetCanaryValidAnnotationKey, "-")
+			s.userAnnotate(def.NS, def.Name, edsv1.ExtendedDaemonSetRolloutFrozenAnnotationKey, "-")
+			s.userAnnotate(def.NS, def.Name, edsv1.ExtendedDaemonSetRollingUpdatePausedAnnotationKey, "-")
+			for _, nd := range s.W.SpareNodes {
+				if s.Store.GetNode(nd.Name) == nil {
+					_, _ = s.Store.CreateObj(nd.Object())
+					s.Probe("c04.node-joined-during-canary")
+					break
+				}
+			}
+			for i := 0; i < s.c02Bound(); i++ {
+				s.step++
+				s.Round(r)
+			}
+			e = s.Store.GetEDS(def.NS, def.Name)
+			if e != nil && e.Status.Canary != nil && e.Status.Canary.ReplicaSet == cr.Name {
+				act := s.Store.GetERS(def.NS, e.Status.ActiveReplicaSet)
+				cr = s.Store.GetERS(def.NS, cr.Name)
+				if act != nil && cr != nil && !ersCondTrue(&cr.Status, edsv1.ConditionTypeCanaryFailed) {
+					s.Stats.NonVacuous["C04.held"]++
+					canary := map[string]bool{}
+					for _, n := range e.Status.Canary.Nodes {
+						canary[n] = true
+					}
+					al, cl := letterOfTpl(&act.Spec.Template), letterOfTpl(&cr.Spec.Template)
+					for _, n := range s.Store.Nodes() {
+						if canary[n.Name] || !eligibleSpec(n, &act.Spec.Template.Spec) {
+							continue
+						}
+						ok := false
+						for _, p := range s.Store.Pods() {
+							if isDaemonPod(p, def.NS, def.Name) && podNode(p) == n.Name && letterOfPod(p) == al && podReady(p) && !terminating(p) {
+								ok = true
+							}
+							if isDaemonPod(p, def.NS, def.Name) && podNode(p) == n.Name && letterOfPod(p) == cl && cl != al && !terminating(p) {
+								s.Violate("C04", "M4", "new-template-outside", "while the canary is held, node %s (not a canary node) runs pod %s of the new template", n.Name, p.Name)
+							}
+						}
+						if !ok {
+							s.Violate("C04", "M4", "not-served", "canary held for %d rounds: eligible non-canary node %s has no Ready pod of the active template %s", s.c02Bound(), n.Name, al)
+						}
+					}
+					for _, p := range s.Store.Pods() {
+						if isDaemonPod(p, def.NS, def.Name) && canary[podNode(p)] && p.Labels[edsv1.ExtendedDaemonSetReplicaSetNameLabelKey] == cr.Name && !terminating(p) {
+							if p.Labels[canaryLabel] != edsv1.ExtendedDaemonSetReplicaSetCanaryLabelValue {
+								s.Violate("C04", "M5", "label-missing", "canary pod %s on canary node %s does not carry the canary label", p.Name, podNode(p))
+							}
+						}
+					}
+				}
+			}
+		}
+	}
+	s.Quiesce()
+	// after promotion no pod of the active replica set carries the canary label
+	e = s.Store.GetEDS(def.NS, def.Name)
+	if e != nil && !s.canaryBusy() {
+		if ok, _, _ := s.convergedEDS(def); ok {
+			s.Stats.NonVacuous["C04.promoted"]++
+			for _, p := range s.Store.Pods() {
+				if isDaemonPod(p, def.NS, def.Name) && p.Labels[edsv1.ExtendedDaemonSetReplicaSetNameLabelKey] == e.Status.ActiveReplicaSet {
+					if _, has := p.Labels[canaryLabel]; has {
+						s.Violate("C04", "M5", "label-left", "pod %s of the active replica set still carries the canary label at quiescence", p.Name)
+					}
+				}
+			}
+		}
+	}
+}
+
+func init() {
+	register(&Profile{Name: "C04", Decide: []string{"C04"}, Quick: 1500, Thorough: 80000, Gen: genC04, Body: bodyC04,
+		NonVacuous: []string{"C04.canary-sync", "C04.active-with-canary", "C04.canary-status", "C04.held", "C04.promoted"}, Chunk: 50,
+		Rule: "Canary histories (replicas as number or percent, a second template change while a canary runs, node churn, pause/unpause/fail, all three replica-set roles and the ExtendedDaemonSet reconciling against one store in any order, stalls across role changes); per-sync confinement monitors; then either the canary is held while a node joins and the rest of the fleet must be served by the active template with the canary pods labelled, or it is promoted and the label must be gone at quiescence. " + histRule})
 }
